@@ -16,8 +16,11 @@ VERIF = os.path.dirname(os.path.dirname(os.path.abspath(__file__)))
 SPEC = os.path.join(VERIF, "spec")
 OUT = os.path.join(VERIF, "out")
 WORKROOT = os.path.join(OUT, "work")
-REPLAYS = os.path.join(OUT, "replays")
-EVIDENCE = os.path.join(VERIF, "evidence")
+# VERIF_EVIDENCE_DIR: used by tools/seeded.py so that runs against seeded mutants never overwrite the
+# evidence / replay files of the real tree
+_EVD = os.environ.get("VERIF_EVIDENCE_DIR")
+REPLAYS = os.path.join(_EVD, "replays") if _EVD else os.path.join(OUT, "replays")
+EVIDENCE = _EVD or os.path.join(VERIF, "evidence")
 KNOWN = os.path.join(VERIF, "known_findings.txt")
 REPO = os.environ.get("AUDITOK_REPO", "/repo")
 SEED = int(os.environ.get("VERIF_SEED", "20260926") or 0)
